@@ -3001,10 +3001,22 @@ fn generate_constraints_expr(
                             // example: Clone.clone(my_struct)
                             //          ^^^^^
                             let memfn_node_ty = TypeVar::from_node(ctx, fname.node());
-                            // TODO: if the first argument of the method is of type Self, that should influence what we do here.
-                            //  map.new() does not apply
-                            //  but Clone.clone() it does apply!
-                            let impl_ty = match args.first() {
+                            // the argument in the position of the method's first `Self` parameter
+                            // decides the implementation (Clone.clone(x): the first argument);
+                            // a method without a `Self` parameter keeps using the first argument
+                            let self_pos = iface_def.methods[method]
+                                .args
+                                .iter()
+                                .position(|a| {
+                                    a.ty.as_ref().and_then(|t| t.to_solved_type(ctx)).is_some_and(|t| {
+                                        matches!(
+                                            t,
+                                            SolvedType::Poly(PolytypeDeclaration::InterfaceSelf(_))
+                                        )
+                                    })
+                                })
+                                .unwrap_or(0);
+                            let impl_ty = match args.get(self_pos) {
                                 Some(arg) => {
                                     generate_constraints_expr(
                                         ctx,
